@@ -1,12 +1,12 @@
 SPEC = dict(
     id="C14",
     bin="c14",
-    cases_quick=3000,
-    cases_thorough=120000,
+    cases_quick=800,
+    cases_thorough=40000,
     level="proof",
     technique="Coq theorems over a Gallina model of pending_position_impact_pool_distribution_amount and DistributePositionImpact::execute (all widths, all pools/minimums/rates/times, histories by induction) + differential correspondence with the real action run over vmarket::TestMarket (u64/9 and u128/20) + oracle re-evaluating the property on the Rust reports and pool read-backs",
     text="For every pool amount, minimum, rate and elapsed time the distributed amount is proved to be min(floor(elapsed*rate/UNIT), max(0, pool-min)); a distribution never increases the pool, never takes it below the minimum when it started above it and leaves it untouched at or below the minimum; by induction the same holds over any history of repeated distributions. The only failures are an overflow of elapsed*rate/UNIT (proved unreachable for u128/20 with u64 seconds) and an amount >= 2^(w-1); both leave the pool unchanged.",
     level_note="Trusted: Coq kernel + vm_compute; the hand-written model is tied to the code on generated histories (rates 0/whole/fractional/arbitrary, pools at type limits, minimum at/around the pool, elapsed times that land on, just below and just above the excess, clock ahead of now). The clock and pool are the harness TestMarket (same trait bodies as the model crate's test market); on failure the action itself does not roll the clock back (transaction atomicity is the runtime's job) and the model says so.",
     design_ref="DESIGN.md section 6, C14",
-    explanation="Histories of 1-12 steps (Dist / external SetPool) plus single calls of the pure function, on u64/9 and u128/20.",
+    explanation="Histories of 1-8 steps (Dist / external SetPool) plus single calls of the pure function, on u64/9 and u128/20.",
 )
